@@ -441,7 +441,9 @@ func runPredecodeStream(c *Ctx, n int) {
 		var raw []byte
 		var labels []string
 		var rs *ResponseSpec
-		crRef := false // a U+000D inside a root attribute value, presented as a character reference (round-6 shape, finding F13)
+		// a U+000D inside a root attribute value or at the end of the root's Issuer text, presented as a character reference
+		// (round-6 shape; F13, repaired by 2164cf6: regression cases -- the pre-decoder and validation must report the same value)
+		crRef := false
 		if isLogout {
 			rs = &ResponseSpec{ID: fmt.Sprintf("_l%d", r.Intn(1000000)), InResponseTo: "_q1", Version: "2.0", Issuer: sp2(idpIss), StatusCode: sp2(statusOK),
 				Style: styles[r.Intn(len(styles))], Kind: "LogoutResponse", Destination: pick(r, sloURL, ""), XMLDecl: r.Intn(3) == 0}
@@ -456,7 +458,9 @@ func runPredecodeStream(c *Ctx, n int) {
 			}
 			crRef = r.Intn(10) == 0
 			if crRef {
-				crInto(rs, r.Intn(2) == 0)
+				if crInto(rs, r.Intn(3)) {
+					sp.IdentityProviderIssuer = ""
+				}
 			}
 			root := buildMessage(rs)
 			doc := etree.NewDocument()
@@ -471,6 +475,7 @@ func runPredecodeStream(c *Ctx, n int) {
 				labels = append(labels, "signed")
 			}
 			doc.WriteSettings.CanonicalAttrVal = crRef // U+000D in an attribute value as &#xD; (etree's default writes it raw: F8)
+			doc.WriteSettings.CanonicalText = crRef    // ... and in character data
 			raw, _ = doc.WriteToBytes()
 			labels = append(labels, "kind=LogoutResponse")
 		} else {
@@ -492,11 +497,18 @@ func runPredecodeStream(c *Ctx, n int) {
 			crRef = r.Intn(10) == 0
 			if crRef {
 				// the ID only where the root is unsigned: a root signature references the ID, whose URI form goxmldsig compares literally
-				crInto(rs, placement == 2 && r.Intn(2) == 0)
+				mode := 1 + k%2 // InResponseTo / Issuer text
+				if placement == 2 {
+					mode = r.Intn(3)
+				}
+				if crInto(rs, mode) {
+					sp.IdentityProviderIssuer = ""
+				}
 				rs.Pretty = false
 			}
 			doc := g.buildSigned(rs, placement, w.IdP1, nil)
 			doc.WriteSettings.CanonicalAttrVal = crRef
+			doc.WriteSettings.CanonicalText = crRef
 			raw, _ = doc.WriteToBytes()
 			labels = append(labels, fmt.Sprintf("kind=Response,placement=%d", placement))
 		}
@@ -509,7 +521,11 @@ func runPredecodeStream(c *Ctx, n int) {
 				if r.Intn(2) == 0 {
 					s = strings.Replace(s, "&#xD;", "&#13;", -1) // the same character, decimal reference (no effect on any signature)
 				}
-				labels = append(labels, "cr-char-reference-in-root-attribute")
+				if rs.Issuer != nil && strings.HasSuffix(*rs.Issuer, "\r") {
+					labels = append(labels, "cr-char-reference-in-root-issuer-text")
+				} else {
+					labels = append(labels, "cr-char-reference-in-root-attribute")
+				}
 			}
 		}
 		// an XML declaration naming another encoding than UTF-8 on the genuine (UTF-8) bytes: etree passes the bytes through, and
@@ -691,7 +707,7 @@ func runPredecodeStream(c *Ctx, n int) {
 				crn := func(x string) string { return strings.Replace(strings.Replace(x, "\r\n", "\n", -1), "\r", "\n", -1) }
 				if crRef && crn(preID) == vID && crn(preIRT) == vIRT && crn(preDest) == vDest && crn(preVer) == vVer && crn(preIss) == vIss {
 					// the two results differ ONLY by U+000D (pre-decode) vs U+000A (validation) in a value that carried the reference
-					key = "predecode:disagrees:cr-char-reference" // known finding F13
+					key = "predecode:disagrees:cr-char-reference" // F13 (repaired by 2164cf6: xmlUnmarshalElement writes the value canonically)
 				}
 				if shape == 3 {
 					key = "predecode:disagrees:dup-prefixed-dup" // known finding F9 region
@@ -731,13 +747,24 @@ func runPredecodeStream(c *Ctx, n int) {
 	}
 }
 
-// crInto puts a U+000D into a root attribute value of the message the IdP is about to build (and sign): InResponseTo, or the ID.
-func crInto(rs *ResponseSpec, id bool) {
-	if id {
+// crInto puts a U+000D into a value of the root of the message the IdP is about to build (and sign): the ID (mode 0),
+// InResponseTo (mode 1), or the end of the Issuer text (mode 2; answers true: the caller's SP must not be configured with another
+// issuer value).
+func crInto(rs *ResponseSpec, mode int) bool {
+	switch mode {
+	case 0:
 		rs.ID = rs.ID + "\r"
-	} else {
+	case 1:
 		rs.InResponseTo = "_q\rx"
+	default:
+		if rs.Issuer == nil || rs.IssuerSplit != "" {
+			rs.InResponseTo = "_q\rx"
+			return false
+		}
+		rs.Issuer = sp2(*rs.Issuer + "\r")
+		return true
 	}
+	return false
 }
 
 // polyglotStoredBlocks builds (wire, inflated): inflated is an unsigned Response with one IdP-signed assertion and neither
